@@ -342,6 +342,15 @@ impl LazyFreeStats {
 /// still in use by active tokens.
 #[derive(Debug)]
 pub struct VersionManager {
+    /// Counters and locks, shared with every token this manager has issued: a token releases
+    /// itself into this state when it is dropped, which may happen after the manager itself
+    /// is gone (token cached in thread-local storage, token moved to another owner).
+    state: Arc<VersionState>,
+}
+
+/// State of a [`VersionManager`], kept alive by the manager and by its outstanding tokens.
+#[derive(Debug)]
+struct VersionState {
     /// Current concurrency level.
     concurrency_level: ConcurrencyLevel,
     /// Master version sequence counter.
@@ -362,44 +371,46 @@ impl VersionManager {
     /// Creates a new version manager with the specified concurrency level.
     pub fn new(concurrency_level: ConcurrencyLevel) -> Self {
         Self {
-            concurrency_level,
-            current_version: AtomicU64::new(1), // Start at 1 to avoid zero-version issues
-            min_version: AtomicU64::new(1),
-            active_readers: AtomicU64::new(0),
-            active_writers: AtomicU64::new(0),
-            token_chain_mutex: Mutex::new(()),
-            stats: Mutex::new(VersionManagerStats::default()),
+            state: Arc::new(VersionState {
+                concurrency_level,
+                current_version: AtomicU64::new(1), // Start at 1 to avoid zero-version issues
+                min_version: AtomicU64::new(1),
+                active_readers: AtomicU64::new(0),
+                active_writers: AtomicU64::new(0),
+                token_chain_mutex: Mutex::new(()),
+                stats: Mutex::new(VersionManagerStats::default()),
+            }),
         }
     }
 
     /// Returns the current concurrency level.
     #[inline]
     pub fn concurrency_level(&self) -> ConcurrencyLevel {
-        self.concurrency_level
+        self.state.concurrency_level
     }
 
     /// Returns the current version sequence number.
     #[inline]
     pub fn current_version(&self) -> u64 {
-        self.current_version.load(Ordering::Acquire)
+        self.state.current_version.load(Ordering::Acquire)
     }
 
     /// Returns the minimum version still in use.
     #[inline]
     pub fn min_version(&self) -> u64 {
-        self.min_version.load(Ordering::Acquire)
+        self.state.min_version.load(Ordering::Acquire)
     }
 
     /// Returns the number of active reader tokens.
     #[inline]
     pub fn active_readers(&self) -> u64 {
-        self.active_readers.load(Ordering::Relaxed)
+        self.state.active_readers.load(Ordering::Relaxed)
     }
 
     /// Returns the number of active writer tokens.
     #[inline]
     pub fn active_writers(&self) -> u64 {
-        self.active_writers.load(Ordering::Relaxed)
+        self.state.active_writers.load(Ordering::Relaxed)
     }
 
     /// Acquires a new reader token.
@@ -408,7 +419,7 @@ impl VersionManager {
     /// sequence number and updating the active token count.
     pub fn acquire_reader_token(&self) -> Result<ReaderToken> {
         // Check if readers are allowed at this concurrency level
-        if self.concurrency_level == ConcurrencyLevel::NoWriteReadOnly {
+        if self.state.concurrency_level == ConcurrencyLevel::NoWriteReadOnly {
             // Read-only level allows unlimited readers without version tracking
             return Ok(ReaderToken::new_readonly());
         }
@@ -416,21 +427,21 @@ impl VersionManager {
         let start_time = Instant::now();
 
         // For levels that require synchronization, acquire version under lock
-        let (version, min_version) = if self.concurrency_level.requires_synchronization() {
-            let _lock = self.token_chain_mutex.lock().map_err(|_| {
+        let (version, min_version) = if self.state.concurrency_level.requires_synchronization() {
+            let _lock = self.state.token_chain_mutex.lock().map_err(|_| {
                 ZiporaError::system_error("Failed to acquire token chain mutex for reader")
             })?;
 
-            let current_min = self.min_version.load(Ordering::Acquire);
-            let version = self.current_version.fetch_add(1, Ordering::AcqRel) + 1;
+            let current_min = self.state.min_version.load(Ordering::Acquire);
+            let version = self.state.current_version.fetch_add(1, Ordering::AcqRel) + 1;
             // Count the token before the mutex is released: a concurrent release must not
             // see "no active tokens" and advance min_version past this token's version
-            self.active_readers.fetch_add(1, Ordering::AcqRel);
+            self.state.active_readers.fetch_add(1, Ordering::AcqRel);
 
             (version, current_min)
         } else {
             // Single-threaded modes don't need version tracking
-            self.active_readers.fetch_add(1, Ordering::Relaxed);
+            self.state.active_readers.fetch_add(1, Ordering::Relaxed);
             (1, 1)
         };
 
@@ -438,7 +449,7 @@ impl VersionManager {
         crate::verif_hooks::yield_point(20);
 
         // Update statistics
-        if let Ok(mut stats) = self.stats.lock() {
+        if let Ok(mut stats) = self.state.stats.lock() {
             stats.reader_tokens_acquired += 1;
             stats.total_reader_acquisition_time += start_time.elapsed();
         }
@@ -447,9 +458,9 @@ impl VersionManager {
             version,
             min_version,
             thread::current().id(),
-            self.concurrency_level,
+            self.state.concurrency_level,
             Arc::new(TokenReleaseCallback {
-                version_manager: self as *const Self,
+                state: Arc::clone(&self.state),
                 token_type: TokenType::Reader,
             }),
         ))
@@ -461,7 +472,7 @@ impl VersionManager {
     /// checking based on the concurrency level.
     pub fn acquire_writer_token(&self) -> Result<WriterToken> {
         // Check if writers are allowed at this concurrency level
-        if self.concurrency_level == ConcurrencyLevel::NoWriteReadOnly {
+        if self.state.concurrency_level == ConcurrencyLevel::NoWriteReadOnly {
             return Err(ZiporaError::invalid_operation(
                 "Writers not allowed in NoWriteReadOnly mode",
             ));
@@ -472,29 +483,29 @@ impl VersionManager {
         #[cfg(zipora_verif)]
         crate::verif_hooks::yield_point(10);
         // Acquire version under lock for synchronized levels
-        let (version, min_version) = if self.concurrency_level.requires_synchronization() {
-            let _lock = self.token_chain_mutex.lock().map_err(|_| {
+        let (version, min_version) = if self.state.concurrency_level.requires_synchronization() {
+            let _lock = self.state.token_chain_mutex.lock().map_err(|_| {
                 ZiporaError::system_error("Failed to acquire token chain mutex for writer")
             })?;
 
             // For OneWriteMultiRead, ensure no other writers are active. The check and the
             // increment below happen under the same mutex, so two writers cannot both pass.
-            if self.concurrency_level == ConcurrencyLevel::OneWriteMultiRead
-                && self.active_writers.load(Ordering::Acquire) > 0
+            if self.state.concurrency_level == ConcurrencyLevel::OneWriteMultiRead
+                && self.state.active_writers.load(Ordering::Acquire) > 0
             {
                 return Err(ZiporaError::resource_busy(
                     "Another writer is already active in OneWriteMultiRead mode",
                 ));
             }
 
-            let current_min = self.min_version.load(Ordering::Acquire);
-            let version = self.current_version.fetch_add(1, Ordering::AcqRel) + 1;
+            let current_min = self.state.min_version.load(Ordering::Acquire);
+            let version = self.state.current_version.fetch_add(1, Ordering::AcqRel) + 1;
             // Count the token before the mutex is released (see acquire_reader_token)
-            self.active_writers.fetch_add(1, Ordering::AcqRel);
+            self.state.active_writers.fetch_add(1, Ordering::AcqRel);
 
             (version, current_min)
         } else {
-            self.active_writers.fetch_add(1, Ordering::Relaxed);
+            self.state.active_writers.fetch_add(1, Ordering::Relaxed);
             (1, 1)
         };
 
@@ -502,7 +513,7 @@ impl VersionManager {
         crate::verif_hooks::yield_point(11);
 
         // Update statistics
-        if let Ok(mut stats) = self.stats.lock() {
+        if let Ok(mut stats) = self.state.stats.lock() {
             stats.writer_tokens_acquired += 1;
             stats.total_writer_acquisition_time += start_time.elapsed();
         }
@@ -511,14 +522,16 @@ impl VersionManager {
             version,
             min_version,
             thread::current().id(),
-            self.concurrency_level,
+            self.state.concurrency_level,
             Arc::new(TokenReleaseCallback {
-                version_manager: self as *const Self,
+                state: Arc::clone(&self.state),
                 token_type: TokenType::Writer,
             }),
         ))
     }
+}
 
+impl VersionState {
     /// Internal method to release a reader token.
     fn release_reader_token(&self, token_version: u64) {
         self.active_readers.fetch_sub(1, Ordering::Relaxed);
@@ -573,10 +586,12 @@ impl VersionManager {
             self.min_version.store(current, Ordering::Release);
         }
     }
+}
 
+impl VersionManager {
     /// Returns version manager statistics.
     pub fn stats(&self) -> Result<VersionManagerStats> {
-        self.stats
+        self.state.stats
             .lock()
             .map(|stats| stats.clone())
             .map_err(|_| ZiporaError::system_error("Failed to acquire stats mutex"))
@@ -584,7 +599,7 @@ impl VersionManager {
 
     /// Clears all statistics.
     pub fn clear_stats(&self) -> Result<()> {
-        self.stats
+        self.state.stats
             .lock()
             .map(|mut stats| *stats = VersionManagerStats::default())
             .map_err(|_| ZiporaError::system_error("Failed to acquire stats mutex"))
@@ -654,14 +669,16 @@ enum TokenType {
 
 /// Callback structure for token release.
 struct TokenReleaseCallback {
-    version_manager: *const VersionManager,
+    /// Shared ownership of the issuing manager's state: releasing a token never touches
+    /// freed memory, whatever the order in which tokens and manager are dropped.
+    state: Arc<VersionState>,
     token_type: TokenType,
 }
 
 impl std::fmt::Debug for TokenReleaseCallback {
     fn fmt(&self, f: &mut std::fmt::Formatter<'_>) -> std::fmt::Result {
         f.debug_struct("TokenReleaseCallback")
-            .field("version_manager", &(self.version_manager as usize))
+            .field("version_manager", &(Arc::as_ptr(&self.state) as usize))
             .field("token_type", &self.token_type)
             .finish()
     }
@@ -669,31 +686,12 @@ impl std::fmt::Debug for TokenReleaseCallback {
 
 impl TokenReleaseCallback {
     fn release(&self, token_version: u64) {
-        unsafe {
-            let manager = &*self.version_manager;
-            match self.token_type {
-                TokenType::Reader => manager.release_reader_token(token_version),
-                TokenType::Writer => manager.release_writer_token(token_version),
-            }
+        match self.token_type {
+            TokenType::Reader => self.state.release_reader_token(token_version),
+            TokenType::Writer => self.state.release_writer_token(token_version),
         }
     }
 }
-
-// SAFETY: TokenReleaseCallback is Send because:
-// 1. `version_manager: *const VersionManager` - Raw pointer to a VersionManager.
-//    The VersionManager is expected to outlive all callbacks (managed by Arc).
-// 2. `token_type: TokenType` - Simple enum, trivially Send.
-//
-// INVARIANT: The VersionManager must remain valid for the lifetime of all callbacks.
-// This is enforced by the Arc<VersionManager> ownership in the token creation path.
-unsafe impl Send for TokenReleaseCallback {}
-
-// SAFETY: TokenReleaseCallback is Sync because:
-// 1. Both fields are read-only after construction.
-// 2. `release()` calls thread-safe methods on VersionManager (which uses atomics).
-// 3. The VersionManager's release_reader_token/release_writer_token are atomic.
-// Sharing &TokenReleaseCallback for concurrent reads is safe.
-unsafe impl Sync for TokenReleaseCallback {}
 
 /// Reader token for safe concurrent read access.
 ///
@@ -784,7 +782,7 @@ impl ReaderToken {
     pub(crate) fn issued_by(&self, manager: &VersionManager) -> bool {
         self.release_callback
             .as_ref()
-            .is_some_and(|cb| std::ptr::eq(cb.version_manager, manager))
+            .is_some_and(|cb| Arc::ptr_eq(&cb.state, &manager.state))
     }
 }
 
@@ -874,7 +872,7 @@ impl WriterToken {
     pub(crate) fn issued_by(&self, manager: &VersionManager) -> bool {
         self.release_callback
             .as_ref()
-            .is_some_and(|cb| std::ptr::eq(cb.version_manager, manager))
+            .is_some_and(|cb| Arc::ptr_eq(&cb.state, &manager.state))
     }
 }
 
